@@ -232,7 +232,14 @@ def check(ctx):
             argl = list(n.ast.args) + [k.value for k in n.ast.keywords]
             if isinstance(n.ast.func, ast.Name) and n.ast.func.id in ("bool", "len", "isinstance", "type"):
                 continue        # a test of the slot is not a use of the key
-            if any(is_slot(x, f, slot) for a in argl for x in ast.walk(a)):
+            def holds_slot(x, f=f, n=n):
+                if is_slot(x, f, slot):
+                    return True
+                if isinstance(x, ast.Name):
+                    srcs = value_sources(f, x, n)
+                    return bool(srcs) and all(k == "expr" and is_slot(pl, f, slot) for k, pl in srcs)
+                return False
+            if any(holds_slot(x) for a in argl for x in ast.walk(a)):
                 uses.append(n)
             elif any(c.cls is KF and c.name == "_get_provider" for c in an.callees(f, n)):
                 uses.append(n)
@@ -492,7 +499,9 @@ def check(ctx):
             if not tg:
                 continue
             nprov += 1
-            okp = is_slot(n.ast.args[0], gp, slot)
+            a0_ = n.ast.args[0]
+            okp = is_slot(a0_, gp, slot) or (isinstance(a0_, ast.Name) and bool(value_sources(gp, a0_, n)) and all(
+                k == "expr" and is_slot(pl, gp, slot) for k, pl in value_sources(gp, a0_, n)))
             ctx.ob("verbatim.slot-to-provider", gp, n.ast, okp, "provider receives the key slot itself" if okp else
                    "the provider is constructed with %s instead of the loaded key" % ast.unparse(n.ast.args[0]), node=n)
     if nprov < 2:
